@@ -16,6 +16,7 @@ from ..runner import Part
 PID = "C08"
 TECHNIQUE = ("exhaustive enumeration of the bundled ISO 4217 table and of ordered currency pairs + Hypothesis amounts, "
              "unknown codes and user-declared currencies, against an independent parse of the XML")
+LEVEL_TEXT = ("Exhaustive over the 167 entries of the bundled ISO table (independent XML parse) and, in the thorough tier, over all 27 722 ordered currency pairs; generated amounts, unknown codes and user currencies. Exploration for amounts and user parameters.")
 RULE = ("table part: all 167 functional currencies enumerated (registration twice, name, smallest fraction, rounding of "
         "tie amounts); pair part: ordered pairs of distinct currencies (all 27 722 in the thorough tier, a fixed stride "
         "sample of ~2 000 in the quick tier) x {+,-,/,<,<=,>,>=,==,!=,convert, Money*Money, unit-level / and <, text with "
